@@ -506,8 +506,14 @@ func (r *Runner) entReqs(b *Base, op Op) []entReq {
 			}
 			root := rootBytes(e.Root)
 			d := domainBytes(cls, 0x5a)
-			er.data = append([]byte{}, root[:32-k]...)
-			er.domain = append(append([]byte{}, root[32-k:]...), d...)
+			if k >= 0 {
+				er.data = append([]byte{}, root[:32-k]...)
+				er.domain = append(append([]byte{}, root[32-k:]...), d...)
+			} else {
+				// K negative: the data field is -K bytes LONG (the root followed by the first bytes of the domain), the domain -K short
+				er.data = append(append([]byte{}, root...), d[:-k]...)
+				er.domain = append([]byte{}, d[-k:]...)
+			}
 			er.effDom, er.effD = cls, d
 		}
 		out[i] = er
